@@ -6,7 +6,9 @@ import (
 	"encoding/binary"
 	"encoding/json"
 	"fmt"
+	"os"
 	"reflect"
+	"strings"
 	"testing"
 
 	"github.com/Eyevinn/mp4ff/avc"
@@ -19,7 +21,38 @@ import (
 
 func TestMain(m *testing.M) { harness.Main(m) }
 
-func init() { harness.RegisterReplay("nalstream", harness.Replayer(checkStream)) }
+func init() {
+	harness.RegisterReplay("nalstream", harness.Replayer(checkStream))
+	// development aid: VERIF_C14_NOAVOID=all or a comma-separated list of switch names
+	if v := os.Getenv("VERIF_C14_NOAVOID"); v == "all" {
+		avoidKnown = map[string]bool{}
+	} else if v != "" {
+		for _, name := range strings.Split(v, ",") {
+			delete(avoidKnown, name)
+		}
+	}
+}
+
+// avoidKnown lists library behaviours that contradict the property on the unchanged tree; the relations
+// concerned are skipped (and counted with harness.Rec.Exclude(name)) so that the search continues behind
+// them. A case carrying "noAvoid": true (the parked reproducers) is judged in full.
+var avoidKnown = map[string]bool{
+	// avc.IsVideoNaluType (and the literal "< 6" tests in avc/annexb.go) count nal_unit_type 0 as a video
+	// NAL unit. H.264 Table 7-1: type 0 is "Unspecified", NAL unit type class non-VCL; the VCL types are
+	// 1..5 (the function's own comment says "true if nalu type is a VCL nalu"). A type-0 NAL unit in front
+	// of the parameter sets / the first slice therefore ends FindNaluTypesUpToFirstVideoNALU,
+	// GetParameterSets, GetParameterSetsFromByteStream, ExtractNalusOfTypeFromByteStream(stopAtVideo) early
+	// and is returned by GetFirstAVCVideoNALUFromByteStream.
+	"avc-type0-counted-as-video": false, // repaired in /repo
+}
+
+func (c streamCase) avoid(name string) bool {
+	if c.NoAvoid || !avoidKnown[name] {
+		return false
+	}
+	harness.Rec.Exclude(name)
+	return true
+}
 
 func TestReplay(t *testing.T) { harness.ReplayPath(t) }
 
@@ -27,6 +60,20 @@ type streamCase struct {
 	Codec string             `json:"codec"` // "avc" | "hevc"
 	Nalus []harness.HexBytes `json:"nalus"` // complete NAL units (header + escaped payload), non-empty, last byte != 0
 	SC    []int              `json:"sc"`    // start code length (3|4) in front of each NAL unit
+	// NoAvoid: judge the relations behind the avoidKnown switches as well (reproducers of known findings)
+	NoAvoid bool `json:"noAvoid,omitempty"`
+}
+
+// unchanged: a helper that only reads must leave its argument as it was.
+func unchanged(fn string, buf, pristine []byte) *harness.Fail {
+	if bytes.Equal(buf, pristine) {
+		return nil
+	}
+	i := 0
+	for i < len(buf) && i < len(pristine) && buf[i] == pristine[i] {
+		i++
+	}
+	return harness.Failf("C14|"+fn+"|input modified", "first difference at offset %d of %d: before %s", i, len(pristine), harness.HexTrunc(pristine, 200))
 }
 
 func (c streamCase) stream() []byte {
@@ -102,6 +149,7 @@ func checkStream(c streamCase) *harness.Fail {
 	stream := c.stream()
 	sample := c.sample()
 	pristine := append([]byte{}, stream...)
+	pristineSample0 := append([]byte{}, sample...)
 	// the generator's construction and the naive scan must agree (generator sanity: emulation-free input)
 	var wantSC []sc
 	pos := 0
@@ -154,22 +202,37 @@ func checkStream(c streamCase) *harness.Fail {
 	if err != nil || !eqNalus(nl, c.Nalus) {
 		return harness.Failf("C14|avc.GetNalusFromSample|nalu list differs", "sample %s: got %s err %v", harness.HexTrunc(sample, 200), hexList(nl), err)
 	}
-	if c.Codec == "avc" {
-		return checkAVC(c, stream, sample)
+	pristineSample := pristineSample0
+	if f := unchanged("avc.GetNalusFromSample", sample, pristineSample); f != nil {
+		return f
 	}
-	return checkHEVC(c, stream, sample)
+	if c.Codec == "avc" {
+		return checkAVC(c, stream, sample, pristine, pristineSample)
+	}
+	return checkHEVC(c, stream, sample, pristine, pristineSample)
 }
 
-func checkAVC(c streamCase, stream, sample []byte) *harness.Fail {
+// avcVCL: H.264 Table 7-1, column "Annex A NAL unit type class": nal_unit_type 1..5 are the VCL ("video")
+// NAL units; 0 is unspecified and non-VCL like 6..31 (14, 20, 21 are VCL only for the Annex G/H/I
+// extensions, which the library does not claim to interpret).
+func avcVCL(t avc.NaluType) bool { return t >= 1 && t <= 5 }
+
+func checkAVC(c streamCase, stream, sample, pristine, pristineSample []byte) *harness.Fail {
 	var types []avc.NaluType
 	firstVideo := -1
+	type0First := false // a type-0 NAL unit in front of the first VCL NAL unit (or no VCL unit at all)
 	for i, n := range c.Nalus {
 		t := avc.NaluType(n[0] & 0x1f)
 		types = append(types, t)
-		if t <= 5 && firstVideo < 0 {
+		if avcVCL(t) && firstVideo < 0 {
 			firstVideo = i
 		}
+		if t == 0 && firstVideo < 0 {
+			type0First = true
+		}
 	}
+	// relations that depend on which NAL unit is the first video one
+	judgeFirst := !(type0First && c.avoid("avc-type0-counted-as-video"))
 	upTo := types
 	if firstVideo >= 0 {
 		upTo = types[:firstVideo+1]
@@ -177,8 +240,11 @@ func checkAVC(c streamCase, stream, sample []byte) *harness.Fail {
 	if g := avc.FindNaluTypes(sample); !reflect.DeepEqual(g, types) {
 		return harness.Failf("C14|avc.FindNaluTypes|type list differs", "got %v want %v", g, types)
 	}
-	if g := avc.FindNaluTypesUpToFirstVideoNALU(sample); !eqTypes(g, upTo) {
+	if g := avc.FindNaluTypesUpToFirstVideoNALU(sample); judgeFirst && !eqTypes(g, upTo) {
 		return harness.Failf("C14|avc.FindNaluTypesUpToFirstVideoNALU|type list differs", "got %v want %v", g, upTo)
+	}
+	if f := unchanged("avc.FindNaluTypes*", sample, pristineSample); f != nil {
+		return f
 	}
 	var sps, pps [][]byte
 	hasS, hasP := false, false
@@ -214,7 +280,7 @@ func checkAVC(c streamCase, stream, sample []byte) *harness.Fail {
 		if g := avc.ExtractNalusOfTypeFromByteStream(avc.NaluType(t), stream, false); !eqList(g, wantList) {
 			return harness.Failf("C14|avc.ExtractNalusOfTypeFromByteStream|nalu list differs", "type %d stopAtVideo=false types %v: got %s want %s", t, types, hexList(g), hexList(wantList))
 		}
-		if t > 5 {
+		if !avcVCL(avc.NaluType(t)) && judgeFirst {
 			var wantBefore [][]byte
 			for i, n := range c.Nalus {
 				if firstVideo >= 0 && i >= firstVideo {
@@ -229,6 +295,12 @@ func checkAVC(c streamCase, stream, sample []byte) *harness.Fail {
 			}
 		}
 	}
+	if f := unchanged("avc.ExtractNalusOfTypeFromByteStream", stream, pristine); f != nil {
+		return f
+	}
+	if f := unchanged("avc.ContainsNaluType", sample, pristineSample); f != nil {
+		return f
+	}
 	wantIDR := false
 	for _, x := range types {
 		if x == 5 {
@@ -238,27 +310,36 @@ func checkAVC(c streamCase, stream, sample []byte) *harness.Fail {
 	if g := avc.IsIDRSample(sample); g != wantIDR {
 		return harness.Failf("C14|avc.IsIDRSample|differs", "types %v: got %v", types, g)
 	}
-	if g := avc.HasParameterSets(sample); g != (hasS && hasP) {
+	if g := avc.HasParameterSets(sample); judgeFirst && g != (hasS && hasP) {
 		return harness.Failf("C14|avc.HasParameterSets|differs", "types %v: got %v", types, g)
 	}
 	gs, gp := avc.GetParameterSets(sample)
-	if !eqList(gs, sps) || !eqList(gp, pps) {
+	if judgeFirst && (!eqList(gs, sps) || !eqList(gp, pps)) {
 		return harness.Failf("C14|avc.GetParameterSets|parameter sets differ", "types %v: got sps %s pps %s want %s %s", types, hexList(gs), hexList(gp), hexList(sps), hexList(pps))
 	}
+	if f := unchanged("avc.IsIDRSample/HasParameterSets/GetParameterSets", sample, pristineSample); f != nil {
+		return f
+	}
 	gs, gp = avc.GetParameterSetsFromByteStream(stream)
-	if !eqList(gs, sps) || !eqList(gp, pps) {
+	if judgeFirst && (!eqList(gs, sps) || !eqList(gp, pps)) {
 		key := "C14|avc.GetParameterSetsFromByteStream|parameter sets differ"
 		if firstVideo < 0 {
 			key = "C14|avc.GetParameterSetsFromByteStream|last parameter set dropped when no video NAL unit follows"
 		}
 		return harness.Failf(key, "types %v stream %s: got sps %s pps %s want %s %s", types, harness.HexTrunc(stream, 120), hexList(gs), hexList(gp), hexList(sps), hexList(pps))
 	}
+	if f := unchanged("avc.GetParameterSetsFromByteStream", stream, pristine); f != nil {
+		return f
+	}
 	var wantFirst []byte
 	if firstVideo >= 0 {
 		wantFirst = c.Nalus[firstVideo]
 	}
-	if g := avc.GetFirstAVCVideoNALUFromByteStream(stream); !bytes.Equal(g, wantFirst) {
+	if g := avc.GetFirstAVCVideoNALUFromByteStream(stream); judgeFirst && !bytes.Equal(g, wantFirst) {
 		return harness.Failf("C14|avc.GetFirstAVCVideoNALUFromByteStream|differs", "types %v: got %s want %s", types, harness.HexTrunc(g, 40), harness.HexTrunc(wantFirst, 40))
+	}
+	if f := unchanged("avc.GetFirstAVCVideoNALUFromByteStream", stream, pristine); f != nil {
+		return f
 	}
 	return nil
 }
@@ -287,7 +368,9 @@ func eqList(a, b [][]byte) bool {
 	return true
 }
 
-func checkHEVC(c streamCase, stream, sample []byte) *harness.Fail {
+// HEVC: H.265 Table 7-1: nal_unit_type 0..31 are VCL (incl. the reserved ranges 10..15, 22..31), 32..63
+// non-VCL; IRAP ("RAP") pictures are 16..23 (BLA, IDR, CRA and RSV_IRAP_VCL22/23); IDR = 19, 20.
+func checkHEVC(c streamCase, stream, sample, pristine, pristineSample []byte) *harness.Fail {
 	var types []hevc.NaluType
 	firstVideo := -1
 	for i, n := range c.Nalus {
@@ -306,6 +389,9 @@ func checkHEVC(c streamCase, stream, sample []byte) *harness.Fail {
 	}
 	if g := hevc.FindNaluTypesUpToFirstVideoNalu(sample); !eqTypes(g, upTo) {
 		return harness.Failf("C14|hevc.FindNaluTypesUpToFirstVideoNalu|type list differs", "got %v want %v", g, upTo)
+	}
+	if f := unchanged("hevc.FindNaluTypes*", sample, pristineSample); f != nil {
+		return f
 	}
 	var vps, sps, pps [][]byte
 	for i, n := range c.Nalus {
@@ -354,6 +440,12 @@ func checkHEVC(c streamCase, stream, sample []byte) *harness.Fail {
 			}
 		}
 	}
+	if f := unchanged("hevc.ExtractNalusOfTypeFromByteStream", stream, pristine); f != nil {
+		return f
+	}
+	if f := unchanged("hevc.ContainsNaluType", sample, pristineSample); f != nil {
+		return f
+	}
 	if g := hevc.IsRAPSample(sample); g != rap {
 		return harness.Failf("C14|hevc.IsRAPSample|differs", "types %v: got %v", types, g)
 	}
@@ -367,6 +459,9 @@ func checkHEVC(c streamCase, stream, sample []byte) *harness.Fail {
 	if !eqList(gv, vps) || !eqList(gs, sps) || !eqList(gp, pps) {
 		return harness.Failf("C14|hevc.GetParameterSets|parameter sets differ", "types %v", types)
 	}
+	if f := unchanged("hevc.IsRAPSample/IsIDRSample/HasParameterSets/GetParameterSets", sample, pristineSample); f != nil {
+		return f
+	}
 	gv, gs, gp = hevc.GetParameterSetsFromByteStream(stream)
 	if !eqList(gv, vps) || !eqList(gs, sps) || !eqList(gp, pps) {
 		key := "C14|hevc.GetParameterSetsFromByteStream|parameter sets differ"
@@ -374,6 +469,9 @@ func checkHEVC(c streamCase, stream, sample []byte) *harness.Fail {
 			key = "C14|hevc.GetParameterSetsFromByteStream|last parameter set dropped when no video NAL unit follows"
 		}
 		return harness.Failf(key, "types %v stream %s: got vps %s sps %s pps %s want %s %s %s", types, harness.HexTrunc(stream, 120), hexList(gv), hexList(gs), hexList(gp), hexList(vps), hexList(sps), hexList(pps))
+	}
+	if f := unchanged("hevc.GetParameterSetsFromByteStream", stream, pristine); f != nil {
+		return f
 	}
 	return nil
 }
@@ -384,14 +482,20 @@ func checkHEVC(c streamCase, stream, sample []byte) *harness.Fail {
 var avcTypes = []byte{1, 1, 5, 5, 6, 7, 7, 8, 8, 9, 10, 11, 12, 2, 3, 4, 13, 14, 19, 20, 23, 31}
 var hevcTypes = []byte{0, 1, 1, 8, 9, 16, 19, 19, 20, 21, 22, 32, 32, 33, 33, 34, 34, 35, 36, 38, 39, 40, 41, 63}
 
+// boundary values of the type tests in the library (video / RAP / IDR / parameter set thresholds)
+var avcEdgeTypes = []byte{1, 2, 4, 5, 6, 7, 8, 9, 19, 20}
+var hevcEdgeTypes = []byte{15, 16, 21, 22, 23, 24, 31, 32, 33, 34, 35, 39, 40}
+
 func genNalu(t *rapid.T, codec string, sizeGen *rapid.Generator[int]) []byte {
 	var hdr []byte
 	if codec == "avc" {
-		ty := rapid.SampledFrom(avcTypes).Draw(t, "type")
+		ty := rapid.OneOf(rapid.SampledFrom(avcTypes), rapid.SampledFrom(avcEdgeTypes),
+			rapid.Map(rapid.IntRange(0, 31), func(i int) byte { return byte(i) })).Draw(t, "type")
 		ref := rapid.IntRange(0, 3).Draw(t, "ref")
 		hdr = []byte{byte(ref)<<5 | ty}
 	} else {
-		ty := rapid.SampledFrom(hevcTypes).Draw(t, "type")
+		ty := rapid.OneOf(rapid.SampledFrom(hevcTypes), rapid.SampledFrom(hevcEdgeTypes),
+			rapid.Map(rapid.IntRange(0, 63), func(i int) byte { return byte(i) })).Draw(t, "type")
 		tid := rapid.IntRange(1, 7).Draw(t, "tid")
 		layer := rapid.SampledFrom([]int{0, 0, 0, 1, 63}).Draw(t, "layer")
 		hdr = []byte{ty<<1 | byte(layer>>5), byte(layer&31)<<3 | byte(tid)}
@@ -447,6 +551,36 @@ func classify(c streamCase) (nontrivial bool, classes []string) {
 		}
 	}
 	classes = append(classes, "codec-"+c.Codec)
+	tc := map[string]bool{}
+	for _, n := range c.Nalus {
+		if c.Codec == "avc" {
+			switch t := n[0] & 0x1f; {
+			case t == 0:
+				tc["avc-type-0(unspecified, non-VCL)"] = true
+			case t >= 15 && t <= 18, t >= 21 && t <= 23:
+				tc["avc-type-reserved-15..18/21..23"] = true
+			case t >= 24:
+				tc["avc-type-unspecified-24..31"] = true
+			}
+		} else {
+			switch t := (n[0] >> 1) & 0x3f; {
+			case t >= 10 && t <= 15:
+				tc["hevc-type-reserved-vcl-10..15"] = true
+			case t == 22 || t == 23:
+				tc["hevc-type-reserved-irap-22..23"] = true
+			case t >= 24 && t <= 31:
+				tc["hevc-type-reserved-vcl-24..31"] = true
+			case t >= 41:
+				tc["hevc-type-nonvcl-41..63"] = true
+			}
+		}
+	}
+	for _, l := range []string{"avc-type-0(unspecified, non-VCL)", "avc-type-reserved-15..18/21..23", "avc-type-unspecified-24..31",
+		"hevc-type-reserved-vcl-10..15", "hevc-type-reserved-irap-22..23", "hevc-type-reserved-vcl-24..31", "hevc-type-nonvcl-41..63"} {
+		if tc[l] {
+			classes = append(classes, l)
+		}
+	}
 	if min == 4 {
 		classes = append(classes, "all-4-byte-startcodes(in-place path)")
 	} else {
@@ -514,9 +648,10 @@ func TestAlignmentSweep(t *testing.T) {
 						if idx%harness.E.NShards != harness.E.Shard || bad > 2 {
 							continue
 						}
-						t1, t2, t3 := byte(7), byte(8), byte(5)
+						// third NAL unit: either side of the video / RAP thresholds
+						t1, t2, t3 := byte(7), byte(8), []byte{5, 6}[(a+b+scm)%2]
 						if codec == "hevc" {
-							t1, t2, t3 = 33, 34, 19
+							t1, t2, t3 = 33, 34, []byte{19, 23, 31, 32}[(a+b+scm)%4]
 						}
 						c := streamCase{Codec: codec,
 							Nalus: []harness.HexBytes{mk(codec, t1, a, fill), mk(codec, t2, b, fill), mk(codec, t3, 1+(a+b)%5, fill)},
@@ -526,6 +661,9 @@ func TestAlignmentSweep(t *testing.T) {
 							c.SC = c.SC[:2]
 						}
 						nt, cls := classify(c)
+						if len(c.Nalus) == 3 {
+							cls = append(cls, fmt.Sprintf("sweep-%s-third-type-%d", codec, t3))
+						}
 						harness.Rec.CaseDistinct(nt, append(cls, fmt.Sprintf("sweep-fill%d", fi))...)
 						if f := harness.Guarded(func() *harness.Fail { return checkStream(c) }); f != nil {
 							if harness.ReportDirect(t, "nalstream", c, f) {
